@@ -1,5 +1,6 @@
 import OdeVerif.Generated.DrawDecision
 import OdeVerif.Generated.Constants
 import OdeVerif.Model.Stiffness
+import OdeVerif.Model.Spikes
 import OdeVerif.Driver
 import OdeVerif.Proofs.C14
